@@ -41,12 +41,18 @@ def observable(d, fields=ALL_FIELDS):
     return {k: d.get(k) for k in fields if k in d} if 'rows' in d else d
 
 
+SPEC_MISMATCHES = []
+
+
 def compare(lines, impl, fields):
     mout = common.run_model(lines)
     iout = common.run_impl_py(lines) if impl == 'py' else common.run_impl_js(lines)
     res = []
     for l, m, o in zip(lines, mout, iout):
-        pm = observable(parse_out(m), fields)
+        pmraw = parse_out(m)
+        if isinstance(pmraw, dict) and pmraw.get('specOk') is False:
+            SPEC_MISMATCHES.append(l)
+        pm = observable(pmraw, fields)
         po = observable(parse_out(o), fields)
         res.append((pm == po, pm, po))
     return res
@@ -123,7 +129,7 @@ def run_cases(res, prop, cases, impl='py', rnd=None, fields=ALL_FIELDS, max_repo
     r = compare(lines, impl, fields)
     res.evaluations += len(lines)
     nbad = 0
-    for c, l, (same, pm, po) in zip(cases, lines, r):
+    for c, l, (same, pm, po), mraw in zip(cases, lines, r, [None] * len(lines)):
         if pm.get('err') is not None if isinstance(pm, dict) else False:
             res.count('model_outcome=error:' + str(pm['err'][0]))
         else:
@@ -143,6 +149,10 @@ def run_cases(res, prop, cases, impl='py', rnd=None, fields=ALL_FIELDS, max_repo
                                    'case_key': '%s|%s|%s|%s|%s' % (prop, impl, json.loads(sl[6:])['py'], json.dumps(small['A']), json.dumps(small.get('B'))),
                                    'replay_cmd': './check %s --replay <this file>' % prop})
     res.count('disagreements_' + impl, nbad)
+    if SPEC_MISMATCHES:
+        # the executable specification layer disagrees with the operational model: a defect of the machinery, not of the repository
+        print('INFRA: specification layer and operational model differ on %d case(s), e.g. %s' % (len(SPEC_MISMATCHES), SPEC_MISMATCHES[0][:600]))
+        raise SystemExit(2)
     return nbad
 
 
